@@ -569,6 +569,21 @@ class Run(object):
         self.add_slot(sn, S, 'struct')
         self.out.probe('deref_owning_struct')
 
+    def op_bufview(self, k):
+        """ffi.buffer(x): the view keeps x (a new / gc / allocator object) alive"""
+        i = self.pick(k, lambda s: s['kind'] in ('new', 'anew', 'gc') and self.mem_ok(s['node']))
+        if i is None:
+            return
+        s = self.slots[i]
+        try:
+            b = self.ffi.buffer(s['obj'])
+        except TypeError:
+            return                  # a struct (not pointer/array) cdata: no buffer
+        n = self.g.add(edges=[s['node']])
+        self.rec(n, kind='view')
+        self.add_slot(n, b, 'view')
+        self.out.probe('buffer_view_keeps_object_alive')
+
     def op_alias(self, k):
         i = self.pick(k, lambda s: s['kind'] in ('new', 'anew') and not self.info[s['node']]['released'])
         if i is None:
@@ -727,6 +742,8 @@ class Run(object):
             self.op_deref(op[1])
         elif name == 'alias':
             self.op_alias(op[1])
+        elif name == 'bufview':
+            self.op_bufview(op[1])
         elif name == 'write':
             self.op_write(op[1])
         elif name == 'read':
@@ -774,7 +791,7 @@ class Run(object):
 
 
 OPS_W = [('new', 10), ('anew', 8), ('gc', 12), ('gcnone', 4), ('release', 10), ('frombuf', 8),
-         ('resize', 5), ('handle', 5), ('hcycle', 1), ('fromh', 6), ('deref', 6), ('alias', 3),
+         ('resize', 5), ('handle', 5), ('hcycle', 1), ('fromh', 6), ('deref', 6), ('alias', 3), ('bufview', 3),
          ('write', 6), ('read', 8), ('drop', 14), ('cycle', 5), ('collect', 6), ('churn', 3),
          ('gremlin', 2)]
 
@@ -836,7 +853,7 @@ class C21(core.Check):
                             rng.weighted([('none', 3), ('ok', 4), ('bad', 2)]), rng.chance(0.7)])
             elif name == 'gc':
                 ops.append(['gc', k, rng.weighted([('ok', 6), ('raises', 2), ('cyc', 3)])])
-            elif name in ('gcnone', 'resize', 'deref', 'alias', 'write', 'read', 'drop', 'cycle'):
+            elif name in ('gcnone', 'resize', 'deref', 'alias', 'bufview', 'write', 'read', 'drop', 'cycle'):
                 ops.append([name, k])
             elif name == 'release':
                 ops.append(['release', k, rng.choice(['release', 'with'])])
